@@ -23,6 +23,10 @@
                                 write was acknowledged with exactly the number of bytes sent.
   * `write_short_ack_raises`  — against a device that stores fewer bytes than sent the outcome is
                                 the library's `Exception`.
+  * `write_resumed_exact`     — HISTORY: a write of which the first k bytes were stored before it failed,
+                                resumed from offset + k, leaves exactly what one complete write stores.
+  * `faultless_plan_is_reference_device` — the fault-injecting device of the history runs is the reference
+                                device while its plan is empty.
   * `multirecord_as_shipped_misaddresses` — COUNTER-EXAMPLE for the pinned source:
                                 get_fru_multirecord_area(fru_id=1) as shipped sends requests naming
                                 FRU 0 and returns FRU 0's record (fixes/C10-1.diff).
@@ -139,6 +143,47 @@ theorem write_short_ack_raises (d : FruDev) (id off : Nat) (c data : List Nat) (
   simp only [writeFruData, hn, if_false, chunks, hk, chunksAux, hne, writeChunks, xchg, hack,
     decodeWrite_ok]
   simp [hmin]
+
+/-! ### histories: a write that failed midway and is resumed; the fault-injecting device -/
+
+/-- A write whose first `k` bytes reached the device before it failed (an error or a short acknowledge in a
+later chunk) and that the caller resumes with `write_fru_data(data[k:], offset + k)` leaves exactly what one
+complete write would have stored – on the same or on any other `Ipmi` object: the model of the transfer
+carries no state from one call to the next. -/
+theorem write_resumed_exact (d : FruDev) (id off k : Nat) (c data : List Nat) (tr : List Xchg)
+    (hid : id < 256) (hk : k ≤ data.length)
+    (hg : d.get id = some (splice c off (data.take k)))
+    (hfit : off + data.length ≤ c.length) (h64 : c.length ≤ 65535) (hw : fruCfg.writeLen ≤ d.wmax) :
+    let r := writeFruData fruCfg respond ⟨d, tr⟩ (data.drop k) (off + k) id
+    r.out = .ok () ∧ r.w.dev.get id = some (splice c off data) ∧
+      ∀ j, j ≠ id → r.w.dev.get j = d.get j := by
+  have hlt : (data.take k).length = k := by simp; omega
+  have hld : (data.drop k).length = data.length - k := by simp
+  have hlen := splice_length c off (data.take k) (by omega)
+  have h := write_exact d id (off + k) (splice c off (data.take k)) (data.drop k) tr hid hg
+    (by omega) (by omega) hw
+  have hs := splice_splice c (data.take k) (data.drop k) off (by omega)
+  rw [hlt, List.take_append_drop] at hs
+  simpa [hs] using h
+
+/-- The device the history runs use (faults at chosen request indices) is the reference device as long as
+its fault plan is empty, so everything proved about `respond` holds for the steps without faults; the
+theorems stated for every peer (`requests_name_fru`, `write_count_mismatch_raises`) cover the faulted ones. -/
+theorem faultless_plan_is_reference_device (d : FruDev) (n cmd : Nat) (p : List Nat) :
+    respondF ⟨d, n, []⟩ cmd p = (⟨(respond d cmd p).1, n + 1, []⟩, (respond d cmd p).2) :=
+  respondF_nofault d n cmd p
+
+/-- a 40-byte write whose third chunk (request 2) is answered C3h stops there with 32 bytes stored -/
+example : (writeFruData fruCfg respondF ⟨⟨⟨[(3, List.replicate 60 0)], 32, 0xCA, false, 16⟩, 0, [(2, .cc 0xC3)]⟩, []⟩
+    (List.replicate 40 9) 5 3).out = .ccError 0xC3 ∧
+    ((writeFruData fruCfg respondF ⟨⟨⟨[(3, List.replicate 60 0)], 32, 0xCA, false, 16⟩, 0, [(2, .cc 0xC3)]⟩, []⟩
+    (List.replicate 40 9) 5 3).w.dev.dev.get 3) = some (splice (List.replicate 60 0) 5 (List.replicate 32 9)) := by decide
+
+/-- a chunk of which the device stores only 3 bytes: the library raises, 16 + 3 bytes are stored -/
+example : (writeFruData fruCfg respondF ⟨⟨⟨[(3, List.replicate 60 0)], 32, 0xCA, false, 16⟩, 0, [(1, .short 3)]⟩, []⟩
+    (List.replicate 40 9) 5 3).out = .pyError "Exception" ∧
+    ((writeFruData fruCfg respondF ⟨⟨⟨[(3, List.replicate 60 0)], 32, 0xCA, false, 16⟩, 0, [(1, .short 3)]⟩, []⟩
+    (List.replicate 40 9) 5 3).w.dev.dev.get 3) = some (splice (List.replicate 60 0) 5 (List.replicate 19 9)) := by decide
 
 /-! ### the pinned source: `get_fru_multirecord_area` drops the FRU id -/
 
